@@ -384,18 +384,21 @@ DEC_FRAMES = {'kind': 'gen', 'name': 'randomframes', 'gen': dec_frames, 'comp': 
 SUITE_ENC = {'kind': 'suite', 'name': 'suite-recorded', 'comp': 'enc', 'trace': 'TraceEnc'}
 SUITE_DEC = {'kind': 'suite', 'name': 'suite-recorded', 'comp': 'dec', 'trace': 'TraceDec'}
 SUITE_ST = {'kind': 'suite', 'name': 'suite-recorded', 'comp': 'st', 'trace': 'TraceStatus'}
+EXAMPLE_ENC = dict(SUITE_ENC, name='example-recorded', program='example')
+EXAMPLE_DEC = dict(SUITE_DEC, name='example-recorded', program='example')
+EXAMPLE_ST = dict(SUITE_ST, name='example-recorded', program='example')
 SUITE_RULE = (" Also: the calls of the repository's own gtest suite on this component, recorded at the public entry points "
-              "(ld --wrap) and judged by the same trace specification.")
+              "(ld --wrap) and judged by the same trace specification; likewise the flows of example/main.cpp where it uses the component.")
 
 PROPS = {
-    'C01': {'level': 'model_checking', 'stages': [ENC_BATCH, ENC_WRAP, ENC_RANDOM, SUITE_ENC], 'nontrivial_case': nt_enc_any,
+    'C01': {'level': 'model_checking', 'stages': [ENC_BATCH, ENC_WRAP, ENC_RANDOM, SUITE_ENC, EXAMPLE_ENC], 'nontrivial_case': nt_enc_any,
             'rule': 'MC_Enc/EncBatch: every batch of 0..MaxPk packets over LenSet x MtSet x every context of MaxSet x MinSet, '
                     'encoder spec composed with decoder spec (InvC01), each enumerated case replayed on the real encoder and '
                     'decoder and judged by TraceEnc (RoundTripOK on logged input and decoded packets); plus seeded random '
                     'batches of all eight payload kinds, payloads up to 65535 bytes. Non-trivial = distinct episodes with a '
                     'non-empty batch.',
             'assumptions': COMMON_ASSUMPTIONS},
-    'C07': {'level': 'model_checking', 'stages': [ENC_BATCH, ENC_RANDOM, SUITE_ENC], 'nontrivial_case': nt_enc_any,
+    'C07': {'level': 'model_checking', 'stages': [ENC_BATCH, ENC_RANDOM, SUITE_ENC, EXAMPLE_ENC], 'nontrivial_case': nt_enc_any,
             'rule': 'as C01; monitor FramesWellFormed (independent frame walker of spec/Frames.tla) on the logged frames. '
                     'Non-trivial = distinct episodes with a non-empty batch; counters give how many calls needed segmentation, aggregation, padding.',
             'assumptions': COMMON_ASSUMPTIONS},
@@ -442,7 +445,7 @@ PROPS = {
                     'frame\'s endpoint, non-CMP buffers leave the pending table untouched. Non-trivial = distinct decode operations (tree stage) / '
                     'distinct episodes of at least two decode calls (random stage).',
             'assumptions': COMMON_ASSUMPTIONS},
-    'C04': {'level': 'model_checking', 'stages': [DEC_MCFRAMES, DEC_FRAMES, SUITE_DEC], 'nontrivial_case': nt_dec_any,
+    'C04': {'level': 'model_checking', 'stages': [DEC_MCFRAMES, DEC_FRAMES, SUITE_DEC, EXAMPLE_DEC], 'nontrivial_case': nt_dec_any,
             'rule': 'MC_Frames: every frame of 0..MaxMsgs messages from a catalogue of 25 payloads (all kinds, consistent / '
                     'inconsistent / bus-error), every truncation and several zero paddings, with and without a pending reassembly; '
                     'each replayed on the real decoder; plus random frames of 0..5 unsegmented messages of every payload kind with arbitrary field values, consistent and '
@@ -471,7 +474,7 @@ PROPS = {
                     'interleaved with header setters. Monitor C13 (raw = Render(header before, args), views give the arguments '
                     'back, own validity check and decoder accept). Non-trivial = distinct episodes that build on a used object.',
             'assumptions': COMMON_ASSUMPTIONS},
-    'C16': {'level': 'model_checking', 'stages': [ST_MC, ST_WALKS, ST_SYS, ST_SYS_WALKS, ST_RANDOM, SUITE_ST], 'nontrivial_case': nt_st,
+    'C16': {'level': 'model_checking', 'stages': [ST_MC, ST_WALKS, ST_SYS, ST_SYS_WALKS, ST_RANDOM, SUITE_ST, EXAMPLE_ST], 'nontrivial_case': nt_st,
             'rule': 'MC_Status: the complete (finite, unbounded-depth) state graph of the tracker over Devs x Ifs x Tags with '
                     'capture-module status, interface status (also for devices that never sent a capture-module status), data '
                     'packets, removals and clear: the operational vector model refines the abstract latest-message map (InvC16); '
